@@ -422,7 +422,7 @@ def analyse_body(facts, rep, b, is_parser, rules, reach=None):
             if "input" in tags and hi > (1 << 20):
                 if cd is None:
                     cd = control_deps(b)
-                if bounded_by_len(b, bb, term, cd, P):
+                if bounded_by_len(b, bb, term, cd, P) or capped_by_len(term, P):
                     rep.ok(R3, {"fn": b.name, "alloc": fmt(norm(term))[:60], "bounded": True})
                 else:
                     rep.violation(R3, b.name, "alloc:%s" % fmt(norm(term))[:50], "%s allocates %s bytes/elements taken from the input (up to %s) before checking it against the buffer" % (b.name.rsplit("::", 1)[-1], fmt(norm(term))[:70], hexs(hi)), where)
@@ -612,6 +612,20 @@ def unwrap_is_guarded(b, bb, term, cd):
         if term_[0] == "discr" and norm(term_[1]) == nt:
             ok_variant = (vals == (0,) and not neg) if "Result" in str(term_[2] if len(term_) > 2 else "") else None
             return True
+    return False
+
+
+def capped_by_len(term, P):
+    """`min(x, f(len))`: the request is capped by an expression of a container's own length (no input-derived
+    value in that operand), whatever x is"""
+    t = strip_refs(term)
+    while t[0] == "cast":
+        t = strip_refs(t[1])
+    if t[0] == "call" and t[1].rsplit("::", 1)[-1] == "min" and len(t[2]) == 2:
+        for a in t[2]:
+            has_len = any(x[0] == "call" and x[1].rsplit("::", 1)[-1] in ("len", "size") for x in walk(a))
+            if has_len and "input" not in P.tags_of(a):
+                return True
     return False
 
 
